@@ -26,6 +26,7 @@ inductive Item where
   | obs                                   -- observe `current_scope()` (and call a probe)
   | raise                                 -- the body raises here
   | block (arg : ScopeArg) (body : List Item)
+  | catch (body : List Item)              -- `try: body except BaseException: pass`
 deriving Inhabited
 
 inductive Outcome where
@@ -44,6 +45,9 @@ mutual
         else
           let (stk2, obs, out) := runItems stk1 body
           (stk2.dropLast, obs, out)                    -- `finally: exit_scope()` on both paths
+    | .catch body =>
+        let (stk1, obs, _) := runItems stk body
+        (stk1, obs, .normal)
   def runItems (stk : List Scope) : List Item → List Scope × List Scope × Outcome
     | [] => (stk, [], .normal)
     | i :: rest =>
@@ -71,25 +75,27 @@ def staticValid : ScopeArg → Bool
   | .invalid => false
 
 mutual
-  /-- groups of primitive actions of a program nested `depth` blocks deep; `true` = it raised
-      (the unwinding pops of all enclosing blocks are part of the raising group) -/
-  def compileItem (depth : Nat) : Item → List (List Prim) × Bool
+  /-- groups of primitive actions of a program nested `depth` blocks deep, the nearest enclosing
+      `catch` sitting at depth `base`; `true` = it raised (the unwinding pops of the blocks between
+      here and that `catch` are part of the raising group) -/
+  def compileItem (depth base : Nat) : Item → List (List Prim) × Bool
     | .obs => ([[.obs]], false)
-    | .raise => ([List.replicate depth .pop], true)
+    | .raise => ([List.replicate (depth - base) .pop], true)
     | .block arg body =>
         if !staticValid arg then
           -- push, validation fails, the `finally` pops, the exception unwinds the enclosing blocks
-          ([[.push arg, .pop] ++ List.replicate depth .pop], true)
+          ([[.push arg, .pop] ++ List.replicate (depth - base) .pop], true)
         else
-          let (gs, r) := compileItems (depth + 1) body
+          let (gs, r) := compileItems (depth + 1) base body
           if r then ([.push arg] :: gs, true) else ([.push arg] :: gs ++ [[.pop]], false)
-  def compileItems (depth : Nat) : List Item → List (List Prim) × Bool
+    | .catch body => ((compileItems depth depth body).1, false)
+  def compileItems (depth base : Nat) : List Item → List (List Prim) × Bool
     | [] => ([], false)
     | i :: rest =>
-        let (g1, r1) := compileItem depth i
+        let (g1, r1) := compileItem depth base i
         if r1 then (g1, true)
         else
-          let (g2, r2) := compileItems depth rest
+          let (g2, r2) := compileItems depth base rest
           (g1 ++ g2, r2)
 end
 
